@@ -5,6 +5,7 @@ import itertools
 
 from multidecoder.decoders import network
 from multidecoder.domains import TOP_LEVEL_DOMAINS
+from multidecoder.multidecoder import Multidecoder
 
 from mdmc import core, trees
 from mdmc.engines import streams
@@ -38,7 +39,7 @@ def describe(tier):
             f"{len(DOM_PRE)}x{len(DOM_SUF)} neighbours, by find_emails on {len(LOCALS)}x{len(MAIL_DOMS)} addresses x neighbours, and by find_urls on the URL grammar of C12 (incl. nested escapes such as %4%41 whose normal form contains a new escape); every reported URL value is fed back to the decoder in the same process and validated again. "
             "Validators written from the statement: canonical dotted quad by integer parsing (free-text IP: value == covered text); domain = non-empty name + '.' + "
             "registered TLD (free text: only letters/digits/hyphen/dot, >= 7 characters); e-mail = local@such-a-domain; URL: scheme in {http,https,ftp} ignoring "
-            "case, non-empty host, value == own percent-normalisation of the covered text (every escape %XY: 256 values x every letter-case spelling of its two hex digits x 6 URL positions), label escape.percent iff that shortened it. "
+            "case, non-empty host, value == own percent-normalisation of the covered text (names of every label length 1..63 over 4 alphabets under 15 special-use suffixes such as .onion / .local / .eth that are not registered TLDs, in free text, e-mail, URL and UNC host position; every escape %XY: 256 values x every letter-case spelling of its two hex digits x 6 URL positions), label escape.percent iff that shortened it. "
             "states = distinct inputs, transitions = indicator nodes validated, traces = scans / decoder calls. Non-trivial = input with >= 1 indicator node."
         ),
         "bounds": {"octet_spellings": len(OCTETS), "tlds": len(TOP_LEVEL_DOMAINS), "labels": len(LABELS)},
@@ -50,7 +51,7 @@ def describe(tier):
 def plan(tier, seed):
     units = [("ips", i) for i in range(len(OCTETS))]
     units += [("domains", i, 16) for i in range(16)]
-    units += [("emails",), ("urls", 0), ("urls", 1), ("tld-table",)] + [("escapes", hi) for hi in range(0, 256, 32)]
+    units += [("emails",), ("urls", 0), ("urls", 1), ("tld-table",)] + [("escapes", hi) for hi in range(0, 256, 32)] + [("special-tlds", i) for i in range(len(SPECIAL_TLDS))]
     units += [("stream", u) for u in streams.plan(tier, fams=STREAM_FAMS)]
     units += core.interp_axis([("emails",), ("tld-table",), ("ips", 0)])
     return units
@@ -97,6 +98,9 @@ def validate(rec, n, orig, free_text, w, size):
 
 # a closing quote / parenthesis inside what the URL pattern takes for userinfo: the context trimming may leave nothing but the scheme
 QUOTED_USERINFO = [b"'+u+':'+p+'@", b"'@", b")@", b"\"@"]
+# names under special-use / alternative-root suffixes that are NOT registered top-level domains: whatever their form (label length 1..63,
+# base32 / hex / decimal alphabets - .onion v2/v3 addresses are 16 / 56 base32 characters, .eth and .bit names are free-form), they are not domains
+SPECIAL_TLDS = [b"onion", b"local", b"localhost", b"test", b"example", b"invalid", b"internal", b"lan", b"home", b"corp", b"bit", b"i2p", b"eth", b"exit", b"alt"]
 NET_TYPES = ("network.ip", "network.domain", "network.email", "network.url")
 FREE = {"find_ips": "network.ip", "find_domains": "network.domain", "find_emails": "network.email", "find_urls": "network.url"}
 
@@ -172,6 +176,30 @@ def run_unit(unit, rec):
                             data = pre + lab + b"." + tl + suf
                             call(rec, network.find_domains, data, {"kind": "call", "fn": "find_domains", "data": data})
         rec.sample({"family": "domains", "last": data})
+    elif kind == "special-tlds":
+        tld = SPECIAL_TLDS[unit[1]]
+        n = 0
+        if tld.upper() in TOP_LEVEL_DOMAINS:
+            rec.note("special-use name that is registered after all: skipped")
+        else:
+            for alphabet in (b"abcdefghijklmnopqrstuvwxyz234567", b"0123456789abcdef", b"a", b"x-y"):
+                for ln in range(1, 64):
+                    lab = (alphabet * 3)[:ln].strip(b"-") or b"a"
+                    for name in (lab + b"." + tld, b"www." + lab + b"." + tld.upper()):
+                        for data, fn in ((b"see " + name + b" now", network.find_domains), (b"mail bob@" + name + b" now", network.find_emails),
+                                         (b"get http://" + name + b"/x now", network.find_urls)):
+                            call(rec, fn, data, {"kind": "call", "fn": fn.__name__, "data": data})
+                            n += 1
+                        data = b"open \\\\" + name + b"\\share\\f.txt now"
+                        rec.count("evaluations")
+                        ok, tree = rec.guard("C10.total", {"kind": "scan", "data": data}, len(data), Multidecoder(streams.registry()).scan, data)
+                        if ok:
+                            rec.count("traces")
+                            for nd in trees.walk(tree):
+                                if nd.type in NET_TYPES:
+                                    validate(rec, nd, None, False, {"kind": "scan", "data": data}, len(data))
+                        n += 1
+        rec.sample({"family": "special-use-suffixes", "tld": tld, "cases": n})
     elif kind == "emails":
         for loc, dom, pre, suf in itertools.product(LOCALS, MAIL_DOMS, (b"", b" ", b"<", b"x"), (b"", b" ", b">", b".", b"x")):
             data = pre + loc + b"@" + dom + suf
@@ -219,6 +247,11 @@ def run_unit(unit, rec):
 def replay(w, rec):
     if w.get("kind") == "call":
         call(rec, getattr(network, w["fn"]), w["data"], w)
+    elif w.get("kind") == "scan":
+        ok, tree = rec.guard("C10.total", w, len(w["data"]), Multidecoder(streams.registry()).scan, w["data"])
+        for nd in trees.walk(tree) if ok else ():
+            if nd.type in NET_TYPES:
+                validate(rec, nd, None, False, w, len(w["data"]))
     elif w.get("kind") == "tld-table":
         run_unit(("tld-table",), rec)
     elif w.get("engine") == "stream":
